@@ -36,7 +36,7 @@ RULE = ("Twin runs. Stream S and S' = S with the VALUES (prices, payloads, table
         "event before the end of the episode.")
 ASSUMPTIONS = ["value perturbations only: adding/removing future timestamps legitimately changes `done`"]
 REQUIRED = ["C02:no-lookahead", "C02:next-trades-independent-of-future", "C02:xy-no-lookahead"]
-REQUIRED_CATS = ["earlier-episode-on-a-later-window", "xy-features-stamped-intraday", "xy-twin-in-fresh-interpreter", "xy-rate-off-price-dates", "transmitter-used-before-with-larger-latency", "xy-prefitted-transformer", "custom-events-from-table", "xy-sparse-features", "generic", "xy", "xy-nan-straddles-cut", "xy-row-missing-at-cut", "cut:first", "cut:last", "latency>0", "late-fold", "markov", "warmup"]
+REQUIRED_CATS = ["decision-refused-then-resubmitted", "earlier-episode-on-a-later-window", "xy-features-stamped-intraday", "xy-twin-in-fresh-interpreter", "xy-rate-off-price-dates", "transmitter-used-before-with-larger-latency", "xy-prefitted-transformer", "custom-events-from-table", "xy-sparse-features", "generic", "xy", "xy-nan-straddles-cut", "xy-row-missing-at-cut", "cut:first", "cut:last", "latency>0", "late-fold", "markov", "warmup"]
 TECHNIQUE = "runtime monitoring: twin executions on streams that agree up to the cut, compared call by call on canonical digests"
 LEVEL_TEXT = ("Exploration by twin runs: the same real environment is executed on two inputs that agree on everything stamped <= t; any "
               "difference in an output landing at or before t is a witness of look-ahead. Fixed actions prevent a leak from hiding "
@@ -63,6 +63,7 @@ class FA(Feature):
 def run_generic(spec, pert_after=None, prng=None):
     grid, evspec, L, d, acts, cs, fold, markov, warm, table, Lfirst = spec[:11]
     prior = spec[11] if len(spec) > 11 else None
+    refuse = spec[12] if len(spec) > 12 else None
     evs = []
     rows = []
     npert = 0
@@ -134,6 +135,13 @@ def run_generic(spec, pert_after=None, prng=None):
         if k > len(grid) + 2:
             raise RuntimeError("step cap")
         lo = len(sink.log)
+        if refuse is not None and k == refuse:
+            # a decision the environment refuses (out of bounds), caught; the proper decision follows for the same
+            # timestep - and is executed on what was known at that timestep, like any other
+            try:
+                env.step(np.full(len(cs), 9.0))
+            except ValueError:
+                pass
         o, r, done, info = env.step(acts[k])
         k += 1
         trades = tuple((str(t.contract), float(t.quantity).hex(), float(t.bid_price).hex(), float(t.ask_price).hex())
@@ -190,7 +198,11 @@ def generic(ctx):
     if n - i0 >= 4 and rng.random() < 0.3:
         prior = rng.randint(i0 + 1, n - 2)
         ctx.cat("earlier-episode-on-a-later-window")
-    spec = (grid, ev, L, d, acts, cs, fold, markov, warm, table, Lfirst, prior)
+    refuse = None
+    if d == 0 and rng.random() < 0.25:
+        refuse = rng.randint(0, max(0, n - i0 - 2))
+        ctx.cat("decision-refused-then-resubmitted")
+    spec = (grid, ev, L, d, acts, cs, fold, markov, warm, table, Lfirst, prior, refuse)
     steps = grid[i0:]
     base, _ = run_generic(spec)
     which = rng.choice(["first", "middle", "last"])
